@@ -151,7 +151,8 @@ def vi_findch(R, chars):
 def vi_motion(R, chars='aoxb .,(é'):
     k = R.random()
     if k < 0.5:
-        return vi_count(R) + R.choice(MOTIONS_CHAR)
+        m = R.choice(MOTIONS_CHAR)
+        return (vi_count(R) if m != '0' else '') + m      # '0' after a count would be read as part of the count
     if k < 0.7:
         return vi_count(R) + R.choice(MOTIONS_LINE)
     if k < 0.8:
